@@ -1,5 +1,7 @@
 import Fcgi.Proofs.E2EAuthEofEnd
+import Fcgi.Proofs.E2ETrunc3Cfg
 import Fcgi.Props.C12E2E6
+import Fcgi.Props.C12E2E5
 
 /-!
 # C12 — end to end, AUTHORIZER with tail traffic, end-of-file at any offset: the closed description
@@ -28,6 +30,35 @@ Which of `AuthCutFail2` / `AuthCutEnd` happens is decided by `record_boundary_eo
 terms of the parser state when `close()` is polled; a criterion in terms of the wire alone ("the
 handler's read consumed the header of the cut record") is NOT proved (it needs the consumed position
 of `Str.Parser.parse`, which `parse_r2d` does not expose).
+
+## FILTER: the missing range of `eof_any_offset_filter_e2e`
+
+`eof_in_data_terminator_filter_e2e`: the cut is behind the 8th byte of the terminating `Data` record
+(or there is none): the stream parser has seen that record's header, both streams end cleanly, the
+handler and `close` run as on the whole wire — complete log with `EndRequest`; the next
+`parse_request` (KEEP_CONN) swallows the cut record silently and ends at EOF.
+`eof_any_offset_filter_all_e2e`: `eof_any_offset_filter_e2e` without its hypothesis `hk`.
+
+Replays (`fcgi-harness C12 quick 1 /tmp/xx --replay f`, crate = model driver on all 9 cases; Authorizer
+wire of `C12E2E6`, handler `r4,o6,W0:6f6b,d0,Xcomplete:0` = read 4, write "ok" to Stdout, return):
+
+```
+auth  k=37        |0 R64:37 HS(2,1,-) r=0:- o=w0 V8+2+6:16 W=ok HE(ok:complete:0) R59:0 RET wlog=[Stdout "ok"]
+auth  k=57        |0 R64:57 HS(2,1,-) r=0:- o=w0 V8+2+6:16 W=ok HE(ok:complete:0) R64:0 RET wlog=[Stdout "ok"]
+auth  k=50        |0 R64:50 … W=ok HE(ok:complete:0) W32:32 W32:32 R62:0 RET wlog=[Stdout "ok"][GetValuesResult][epilogue]
+auth  k=45 no read, rd=37,P,3,P,A
+                  |0 R64:37 HS(2,1,-) o=w0 V8+2+6:16 W=ok HE(ok:complete:0) W32:32 R59:P |1 R59:3 R56:P |2 R56:5 R51:0 RET
+                  wlog=[Stdout "ok"][epilogue]
+filter k=85 (of 86: inside the padding of the Data terminator), h=R,s8,R,o6,W0:21,d0,Xcomplete:3
+                  |0 R64:64 HS(3,0,-) R=2:4142 s=ok R50:21 W32:32 R=3:78797a o=w0 V8+1+7:16 W=ok HE(ok:complete:3) W32:32 RET
+                  wlog=[GetValuesResult][Stdout "!"][epilogue with EndRequest]
+filter k=84 (7 bytes of that record's header)
+                  … R50:20 W32:32 R57:0 R!eof:3:78797a HE(err:eof) RET wlog=[GetValuesResult]
+```
+
+(k=37/57: `AuthCutFail2` with `O₁ = []` — the handler's `write_all` goes through its `Writer` and does
+not flush the replies the stream parser queued; k=50: `AuthCutEnd`, `O₁ = []`, `O₂` = the
+`GetValuesResult`.)
 -/
 namespace Fcgi.C12E
 open Fcgi Fcgi.Req Fcgi.Str Fcgi.Async Fcgi.Run Fcgi.Spec Fcgi.E2E Fcgi.C07E Fcgi.C07U
@@ -192,6 +223,123 @@ theorem eof_any_offset_auth_closed_e2e {p : Preamble} {recs tail : List Rec} {b 
     · exact h.phase
     · exact h.phase
 
+
+/-! ## FILTER: the cut is inside the terminating `Data` record, behind its header -/
+
+/-- **The input ends inside the terminating record of the `Data` stream, behind its header** (or not
+at all). -/
+theorem eof_in_data_terminator_filter_e2e {p : Preamble} {recs srecs drecs : List Rec} {content content2 : Bytes}
+    {b mc : Nat} {data : Bytes} {st : ExitStatus} {t : Transport} {fuel : Nat} (k : Nat)
+    (hwf : WellFormedPreamble p recs) (hrole : p.role = 3)
+    (hpairs : ∀ q ∈ p.pairs, (NV.enc q).length ≤ alignedBufsize b) (hnoise : NoiseFits (alignedBufsize b) recs)
+    (hs : StreamRecs p.id 5 content srecs) (hsn : NoiseFits (alignedBufsize b) srecs)
+    (hd : StreamRecs p.id 8 content2 drecs) (hdn : NoiseFits (alignedBufsize b) drecs)
+    (hk : (serAll recs).length + (serAll srecs).length + (serAll drecs.dropLast).length + 8 ≤ k)
+    (hin : t.input = (serAll recs ++ (serAll srecs ++ serAll drecs)).take k)
+    (hb : Ben t) (hem : t.endMode = .eof) (hev : hsCount t.events = 0)
+    (hfuel : t.rd.length + t.wr.length + 1 ≤ fuel) (hsize : 4 * t.input.length + 17 ≤ 100000)
+    (hhf : alignedBufsize b / 16 + wcost data.length + 24 ≤ 1000) :
+    ∃ c' O₁ O₂, runTask fuel (connS b mc t [(canonicalF data st, true)]) 0 none = (c', "RET") ∧
+      O₁ ++ O₂ = owedStream p.id 5 mc srecs ++ owedStream p.id 8 mc drecs ∧ c'.phase = .finished ∧
+      c'.env.tr.wlog = t.wlog ++ expectedLogN p recs mc data st O₁ O₂ ∧
+      hsCount c'.env.tr.events = 1 ∧ startEvent p.request ∈ c'.env.tr.events ∧
+      readEvent content ∈ c'.env.tr.events ∧ readEvent content2 ∈ c'.env.tr.events := by
+  by_cases hlt : k < (serAll recs ++ (serAll srecs ++ serAll drecs)).length
+  · obtain ⟨body, pad, res, hpad, hbody, hsr⟩ := Str.StreamRecs.split hs
+    obtain ⟨body2, pad2, res2, hpad2, hbody2, hdr⟩ := Str.StreamRecs.split hd
+    have hdl2 : drecs.dropLast = body2 := by rw [hdr]; exact List.dropLast_concat
+    rw [hdl2] at hk
+    have hsb : NoiseFits (alignedBufsize b) body := fun r hr => hsn r (by rw [hsr]; simp [hr])
+    have hdb : NoiseFits (alignedBufsize b) body2 := fun r hr => hdn r (by rw [hdr]; simp [hr])
+    have ok : (cfgF p recs content body pad res content2 body2 pad2 res2 b mc data st t.wlog 0 []).OK :=
+      ⟨hwf, hpairs, hnoise, .filter hrole hbody hbody2 hsb hdb hpad hpad2 rfl rfl rfl rfl rfl rfl hhf⟩
+    have hser : serAll srecs ++ serAll drecs =
+        serAll body ++ ((trec 5 p.id pad res).ser ++ (serAll body2 ++ (trec 8 p.id pad2 res2).ser)) := by
+      rw [hsr, hdr, C02.serAll_append, C02.serAll_single, C02.serAll_append, C02.serAll_single, List.append_assoc]
+      rfl
+    have hsl : (serAll srecs).length = (serAll body).length + (trec 5 p.id pad res).ser.length := by
+      rw [hsr, C02.serAll_append, C02.serAll_single, List.length_append]; rfl
+    rw [hser] at hin hlt
+    rw [hsl] at hk
+    obtain ⟨n, rfl⟩ : ∃ n, k = (serAll recs).length + ((serAll body).length + ((trec 5 p.id pad res).ser.length +
+        ((serAll body2).length + n))) :=
+      ⟨k - (serAll recs).length - (serAll body).length - (trec 5 p.id pad res).ser.length - (serAll body2).length,
+        by omega⟩
+    have h8 : 8 ≤ n := by omega
+    have hn : n < (trec 8 p.id pad2 res2).ser.length := by
+      simp only [List.length_append] at hlt; omega
+    rw [take_len_add, take_len_add, take_len_add, take_len_add] at hin
+    have ok3 := cfg3_cut ok hrole h8 hn
+    have hstage : Stage (cutCfgF (cfgF p recs content body pad res content2 body2 pad2 res2 b mc data st t.wlog 0 []) n)
+        (connS b mc t [(canonicalF data st, true)]) :=
+      .start (raw := []) rfl (by show [] ++ t.input = _; rw [hin]; rfl) (Nat.zero_le _) rfl hb rfl rfl rfl hev
+    obtain ⟨c', O1, O2, hO, hrun, hfin⟩ := run_from_stage3 ok3 (ans t) (connS b mc t [(canonicalF data st, true)]) 0 fuel
+      hstage hem rfl (Nat.le_refl _) (by unfold ans; omega) hsize
+    have hOt : owedStream p.id 5 mc srecs ++ owedStream p.id 8 mc drecs =
+        owedStream p.id 5 mc body ++ owedStream p.id 8 mc body2 := by
+      rw [hsr, hdr, owedStream_append, owedStream_append, owedStream_term p.id 5 mc _ rfl,
+        owedStream_term p.id 8 mc _ rfl, List.append_nil, List.append_nil]
+    have hlog : c'.env.tr.wlog =
+        (cfgF p recs content body pad res content2 body2 pad2 res2 b mc data st t.wlog 0 []).L3 O1 O2 := hfin.log
+    rw [L3_eq] at hlog
+    have hev1 : hsCount c'.env.tr.events = 0 + 1 ∧ hsEvent p.request ∈ c'.env.tr.events := hfin.ev
+    exact ⟨c', O1, O2, hrun, hO.trans hOt.symm, hfin.ph, hlog, hev1.1, hev1.2,
+      hfin.re _ (by show rEvent content ∈ [rEvent content, rEvent content2]; simp),
+      hfin.re _ (by show rEvent content2 ∈ [rEvent content, rEvent content2]; simp)⟩
+  · have hin' : t.input = serAll recs ++ (serAll srecs ++ serAll drecs) := by
+      rw [hin, List.take_of_length_le (by omega)]
+    obtain ⟨c', fin, O1, O2, hrun, hO, ho⟩ := single_request_e2e_filter (data := data) (st := st) (fuel := fuel)
+      hwf hrole hpairs hnoise hs hsn hd hdn hin' hb hev hfuel hsize hhf
+    have hfinal : fin = "RET" ∧ c'.phase = .finished := by
+      rcases ho.final with ⟨_, h, hph⟩ | ⟨_, _, h, hph⟩ | ⟨_, hp, _⟩
+      · exact ⟨h, hph⟩
+      · exact ⟨h, hph⟩
+      · rw [hem] at hp; cases hp
+    obtain ⟨rfl, hph⟩ := hfinal
+    exact ⟨c', O1, O2, hrun, hO, hph, ho.log, ho.one_handler.1, ho.one_handler.2, ho.read_content _ (by simp),
+      ho.read_content _ (by simp)⟩
+
+/-- **End-of-file at ANY byte offset `k` of a Filter wire** — `eof_any_offset_filter_e2e` without its
+restriction on `k`; the last clause now covers every cut behind the header of the `Data` terminator. -/
+theorem eof_any_offset_filter_all_e2e {p : Preamble} {recs srecs drecs : List Rec} {content content2 : Bytes}
+    {b mc : Nat} {data : Bytes} {st : ExitStatus} {t : Transport} {fuel : Nat} (k : Nat)
+    (hwf : WellFormedPreamble p recs) (hrole : p.role = 3)
+    (hpairs : ∀ q ∈ p.pairs, (NV.enc q).length ≤ alignedBufsize b) (hnoise : NoiseFits (alignedBufsize b) recs)
+    (hs : StreamRecs p.id 5 content srecs) (hsn : NoiseFits (alignedBufsize b) srecs)
+    (hd : StreamRecs p.id 8 content2 drecs) (hdn : NoiseFits (alignedBufsize b) drecs)
+    (hin : t.input = (serAll recs ++ (serAll srecs ++ serAll drecs)).take k)
+    (hb : Ben t) (hem : t.endMode = .eof) (hev : hsCount t.events = 0)
+    (hfuel : t.rd.length + t.wr.length + 1 ≤ fuel) (hsize : 4 * t.input.length + 17 ≤ 100000)
+    (hhf : alignedBufsize b / 16 + wcost data.length + 24 ≤ 1000) :
+    ∃ c' O₁ O₂, runTask fuel (connS b mc t [(canonicalF data st, true)]) 0 none = (c', "RET") ∧
+      c'.phase = .finished ∧ O₁ ++ O₂ = owedStream p.id 5 mc srecs ++ owedStream p.id 8 mc drecs ∧
+      (∃ w, c'.env.tr.wlog = t.wlog ++ w ∧ w <+: expectedLogN p recs mc data st O₁ O₂) ∧
+      hsCount c'.env.tr.events ≤ 1 ∧
+      (k < (serAll recs).length → hsCount c'.env.tr.events = 0) ∧
+      ((serAll recs).length ≤ k → hsCount c'.env.tr.events = 1 ∧ startEvent p.request ∈ c'.env.tr.events) ∧
+      ((serAll recs).length ≤ k → k < (serAll recs).length + (serAll srecs.dropLast).length + 8 →
+        ∃ C, C <+: content ∧ readEofEvent C ∈ c'.env.tr.events ∧ handlerEofEvent ∈ c'.env.tr.events) ∧
+      ((serAll recs).length + (serAll srecs.dropLast).length + 8 ≤ k →
+        k < (serAll recs).length + (serAll srecs).length + (serAll drecs.dropLast).length + 8 →
+        readEvent content ∈ c'.env.tr.events ∧
+        ∃ C2, C2 <+: content2 ∧ readEofEvent C2 ∈ c'.env.tr.events ∧ handlerEofEvent ∈ c'.env.tr.events) ∧
+      -- behind the header of the Data terminator: everything read, everything answered
+      ((serAll recs).length + (serAll srecs).length + (serAll drecs.dropLast).length + 8 ≤ k →
+        readEvent content ∈ c'.env.tr.events ∧ readEvent content2 ∈ c'.env.tr.events ∧
+        c'.env.tr.wlog = t.wlog ++ expectedLogN p recs mc data st O₁ O₂) := by
+  by_cases h3 : k < (serAll recs).length + (serAll srecs).length + (serAll drecs.dropLast).length + 8
+  · obtain ⟨c', O1, O2, a1, a2, a3, a4, a5, a6, a7, a8, a9, _⟩ := eof_any_offset_filter_e2e (data := data) (st := st)
+      (fuel := fuel) k hwf hrole hpairs hnoise hs hsn hd hdn hin (Or.inl h3) hb hem hev hfuel hsize hhf
+    exact ⟨c', O1, O2, a1, a2, a3, a4, a5, a6, a7, a8, a9, fun h => absurd h3 (by omega)⟩
+  · have hge : (serAll recs).length + (serAll srecs).length + (serAll drecs.dropLast).length + 8 ≤ k := by omega
+    obtain ⟨c', O1, O2, hrun, hO, hph, hlog, hhs, hst, hr1, hr2⟩ := eof_in_data_terminator_filter_e2e (data := data)
+      (st := st) (fuel := fuel) k hwf hrole hpairs hnoise hs hsn hd hdn hge hin hb hem hev hfuel hsize hhf
+    have hsd : (serAll srecs.dropLast).length ≤ (serAll srecs).length := by
+      obtain ⟨body, pad, res, _, _, hsr⟩ := Str.StreamRecs.split hs
+      rw [hsr, List.dropLast_concat, C02.serAll_append, List.length_append]; omega
+    refine ⟨c', O1, O2, hrun, hph, hO, ⟨_, hlog, List.prefix_refl _⟩, by omega, fun h => by omega,
+      fun _ => ⟨hhs, hst⟩, fun _ h => by omega, fun _ h => absurd h h3, fun _ => ⟨hr1, hr2, hlog⟩⟩
+
 /-! ## Non-vacuity -/
 namespace Example7
 open Fcgi.C01.Example Fcgi.C07E.Example Fcgi.C07U.Example Fcgi.C12E.Example6
@@ -215,6 +363,58 @@ example (k : Nat) (hk : k ≤ 68) (rd : ARead) (wr : Bool) :
   · omega
   · have := h.one_handler.1; omega
   · have := h.one_handler.1; omega
+
+/-- the Filter wire of `C07E.Example` cut after `k` bytes -/
+def cutTF (k : Nat) : Transport :=
+  { input := (serAll recsF ++ (serAll fS ++ serAll fD)).take k, endMode := .eof,
+    rd := [.n 20, .pending, .n 30, .n 1, .pending], wr := [.n 5, .pending], fl := [] }
+
+/-- every offset `k` of the Filter example wire (no restriction any more): the task returns, at most
+one handler start, the log is a prefix of a complete answer -/
+example (k : Nat) : ∃ c' O₁ O₂ w, runTask 20 (connS 64 10 (cutTF k) [(canonicalF [33] (.complete 3), true)]) 0 none = (c', "RET") ∧
+    c'.phase = .finished ∧ hsCount c'.env.tr.events ≤ 1 ∧ c'.env.tr.wlog = [] ++ w ∧
+    w <+: expectedLogN preF recsF 10 [33] (.complete 3) O₁ O₂ := by
+  have hW : (serAll recsF ++ (serAll fS ++ serAll fD)).length ≤ 200 := by decide +kernel
+  have hinl : (cutTF k).input.length ≤ 200 := by
+    show ((serAll recsF ++ (serAll fS ++ serAll fD)).take k).length ≤ 200
+    rw [List.length_take]; omega
+  obtain ⟨c', O1, O2, h1, h2, _, ⟨w, hw1, hw2⟩, h5, _⟩ := eof_any_offset_filter_all_e2e (p := preF)
+    (recs := recsF) (srecs := fS) (drecs := fD) (content := [65, 66])
+    (content2 := [120, 121, 122]) (b := 64) (mc := 10) (data := [33]) (st := .complete 3) (t := cutTF k) (fuel := 20) k
+    recsF_wf rfl (fun q hq => by cases hq) (recsF_fits _) fS_ok
+    (no_getValues_fits (by decide)) fD_ok fD_fits rfl
+    ⟨by show ∀ a ∈ [RdAns.n 20, .pending, .n 30, .n 1, .pending], a ≠ RdAns.err; decide,
+     by show ∀ a ∈ [WrAns.n 5, .pending], a ≠ WrAns.err ∧ a ≠ WrAns.zero; decide, rfl,
+     by show EndMode.eof ≠ EndMode.err; decide⟩ rfl rfl
+    (by show [RdAns.n 20, .pending, .n 30, .n 1, .pending].length + [WrAns.n 5, .pending].length + 1 ≤ 20; decide)
+    (by omega) (by decide)
+  exact ⟨c', O1, O2, w, h1, h2, h5, hw1, hw2⟩
+
+/-- in particular the cut one byte short of the end (inside the padding of the `Data` terminator):
+both contents read, complete log -/
+example : ∃ c' O₁ O₂, runTask 20 (connS 64 10 (cutTF ((serAll recsF ++ (serAll fS ++ serAll fD)).length - 1))
+      [(canonicalF [33] (.complete 3), true)]) 0 none = (c', "RET") ∧
+    readEvent [65, 66] ∈ c'.env.tr.events ∧ readEvent [120, 121, 122] ∈ c'.env.tr.events ∧
+    c'.env.tr.wlog = [] ++ expectedLogN preF recsF 10 [33] (.complete 3) O₁ O₂ := by
+  have hinl : (cutTF ((serAll recsF ++ (serAll fS ++ serAll fD)).length - 1)).input.length ≤ 200 := by
+    show ((serAll recsF ++ (serAll fS ++ serAll fD)).take _).length ≤ 200
+    rw [List.length_take]
+    have : (serAll recsF ++ (serAll fS ++ serAll fD)).length ≤ 200 := by decide +kernel
+    omega
+  obtain ⟨c', O1, O2, h1, _, _, _, _, _, _, _, _, h10⟩ := eof_any_offset_filter_all_e2e (p := preF)
+    (recs := recsF) (srecs := fS) (drecs := fD) (content := [65, 66])
+    (content2 := [120, 121, 122]) (b := 64) (mc := 10) (data := [33]) (st := .complete 3)
+    (t := cutTF ((serAll recsF ++ (serAll fS ++ serAll fD)).length - 1)) (fuel := 20)
+    ((serAll recsF ++ (serAll fS ++ serAll fD)).length - 1)
+    recsF_wf rfl (fun q hq => by cases hq) (recsF_fits _) fS_ok
+    (no_getValues_fits (by decide)) fD_ok fD_fits rfl
+    ⟨by show ∀ a ∈ [RdAns.n 20, .pending, .n 30, .n 1, .pending], a ≠ RdAns.err; decide,
+     by show ∀ a ∈ [WrAns.n 5, .pending], a ≠ WrAns.err ∧ a ≠ WrAns.zero; decide, rfl,
+     by show EndMode.eof ≠ EndMode.err; decide⟩ rfl rfl
+    (by show [RdAns.n 20, .pending, .n 30, .n 1, .pending].length + [WrAns.n 5, .pending].length + 1 ≤ 20; decide)
+    (by omega) (by decide)
+  obtain ⟨a, b, c⟩ := h10 (by decide +kernel)
+  exact ⟨c', O1, O2, h1, a, b, c⟩
 
 end Example7
 
